@@ -834,3 +834,85 @@ fn entry_class(n: usize) -> u64 {
         _ => 4,
     }
 }
+
+// ------------------------------------------------------------------------------------------------
+// representability (model side)
+
+#[derive(Clone, Copy, PartialEq, Eq, Debug)]
+pub enum Repr {
+    Yes,
+    No,
+    /// too close to a limit for the model to tell: creation may succeed or be refused
+    Borderline,
+}
+
+fn bytes_needed(mut v: u64) -> u64 {
+    let mut n = 0;
+    while v > 0 {
+        v >>= 8;
+        n += 1;
+    }
+    n.max(1)
+}
+
+/// Can `case` be represented in the format? Limits modelled: the size of a tail fits 16 bits (indexed value store
+/// tails grow with the number of distinct values, entry store tails with the number and names of the properties),
+/// at most 255 key infos and 255 variants per entry store.
+pub fn representable(case: &DirCase, models: &[Vec<EntryModel>]) -> (Repr, String) {
+    let mut findings: Vec<(Repr, String)> = vec![];
+    let mut judge = |size: u64, what: String| {
+        let r = if size > 69_000 {
+            Repr::No
+        } else if size > 62_000 {
+            Repr::Borderline
+        } else {
+            Repr::Yes
+        };
+        if r != Repr::Yes {
+            findings.push((r, format!("{what}: about {size} bytes of tail")));
+        }
+    };
+    // indexed value stores: distinct stored parts over every column using the store
+    for (vi, indexed) in case.vstores.iter().enumerate() {
+        if !*indexed {
+            continue;
+        }
+        let mut distinct: std::collections::HashSet<&[u8]> = Default::default();
+        for (si, st) in case.stores.iter().enumerate() {
+            for p in st.common.iter().chain(st.variants.iter().flat_map(|v| v.props.iter())) {
+                if let PKind::Array { prefix, store } = &p.kind {
+                    if *store != vi {
+                        continue;
+                    }
+                    for e in &models[si] {
+                        if let Some(Val::A(a)) = e.vals.get(&p.name) {
+                            let cut = (*prefix as usize).min(a.len());
+                            distinct.insert(&a[cut..]);
+                        }
+                    }
+                }
+            }
+        }
+        let d = distinct.len() as u64;
+        let s: u64 = distinct.iter().map(|x| x.len() as u64).sum();
+        let w = bytes_needed(s);
+        judge(10 + w + w * d.saturating_sub(1), format!("indexed value store {vi} with {d} distinct values"));
+    }
+    for (si, st) in case.stores.iter().enumerate() {
+        let props: Vec<&PDef> = st.common.iter().chain(st.variants.iter().flat_map(|v| v.props.iter())).collect();
+        let keys = props.len() + st.variants.len();
+        if keys > 255 || st.variants.len() > 255 {
+            return (Repr::No, format!("entry store {si} needs {keys} key infos"));
+        }
+        if keys > 230 {
+            // paddings add key infos the model does not count exactly
+            judge(65_000, format!("entry store {si} needs about {keys} key infos"));
+        }
+        let tail: u64 = 10 + props.iter().map(|p| 2 + p.name.len() as u64 + 12).sum::<u64>() + st.variants.iter().map(|v| 2 + v.name.len() as u64).sum::<u64>();
+        judge(tail, format!("entry store {si} with {} properties", props.len()));
+    }
+    if let Some(f) = findings.iter().find(|f| f.0 == Repr::No) {
+        return f.clone();
+    }
+    findings.into_iter().next().unwrap_or((Repr::Yes, String::new()))
+}
